@@ -183,13 +183,14 @@ def confirm(v):
     for root, _, files in os.walk(os.path.join(scratch, "src")):
         for fn in files:
             p = os.path.join(root, fn)
-            if re.search(r"fn\s+" + re.escape(name) + r"\s*\(", open(p).read()):
+            text = open(p).read()
+            if re.search(r"fn\s+" + re.escape(name) + r"\s*\(", text) or re.search(r"!\(\s*" + re.escape(name) + r"\s*,", text):
                 owner = p
     if not owner:
         return v
     with open(owner, "a") as f:
         f.write("\n" + test_src + "\n")
-    p = subprocess.run(["cargo", "kani", "playback", "-Z", "concrete-playback", "--test", tn.group(1)], cwd=scratch,
+    p = subprocess.run(["cargo", "kani", "playback", "-Z", "concrete-playback", "--", tn.group(1)], cwd=scratch,
                        capture_output=True, text=True, env=env(), timeout=3000)
     o = p.stdout + p.stderr
     if re.search(r"test result: FAILED|panicked at", o):
